@@ -383,6 +383,7 @@ void p7_store(void) {
     polyseed_storage img;
     for (int i = 0; i < 32; ++i) img[i] = IN.prior[i];
     polyseed_store(&d, img);
+    C16_CHECK(polyseed_store, "C16 every temporary aggregate of polyseed_store is wiped as a whole object");
     uint8_t ref[32];
     spec_store(IN.s.secret, IN.s.birthday, IN.s.features, IN.s.checksum, ref);
     for (int i = 0; i < 32; ++i) VASSERT(img[i] == ref[i], "P7 store writes exactly the published image");
